@@ -231,7 +231,7 @@ VOLUME = {   # tier -> (L1 cases, serial, fork, spawn)
     'quick': (400, 40, 10, 3),
     'thorough': (6000, 400, 120, 30),
 }
-L2_VOLUME = {'quick': 14, 'thorough': 250}     # scripted real ProcessExecutor runs (C04, C05, C10, C11)
+L2_VOLUME = {'quick': 24, 'thorough': 250}     # scripted real ProcessExecutor runs (C04, C05, C10, C11)
 L2_PROPS = {'C04': ['worker-limit-exceeded'], 'C05': ['idle-slot'], 'C11': ['dead-not-detected'], 'C10': []}
 
 
@@ -271,6 +271,12 @@ def run(prop, report, tier, seed, replay=None):
                 c = S.gen_case(rng, runner='l2', max_n=7, **spec['gen'])
                 c['max_workers'] = rng.choice([1, 2, 3])
                 c['pre'] = []
+                if len(l2cases) % 3 == 2:
+                    # wide graph: independent tasks, so that futures queue up behind the single worker slot
+                    c['max_workers'], c['p_kill'] = 1, 0.5
+                    c['specs'] = [['tuple', []] for _ in range(c['n'])]
+                    c['reads'] = [[] for _ in range(c['n'])]
+                    c['req'] = [[t, 0] for t in range(c['n'])]
                 l2cases.append(c)
         cases = [c for c in cases if c.get('runner') != 'l2']
         hangs = 0
@@ -278,7 +284,8 @@ def run(prop, report, tier, seed, replay=None):
             if hangs >= 2:
                 break           # every further run would only wait for the watchdog again
             c.setdefault('watchdog_s', 20)
-            obs, script = X.run_l2(c, p_kill=0.2 if prop in ('C10', 'C11') else 0.1)
+            # every third run: a single worker slot and frequent kills (a death with futures still queued)
+            obs, script = X.run_l2(c, p_kill=c.get('p_kill', 0.2 if prop in ('C10', 'C11') else 0.1))
             hangs += obs['outcome'] == 'hang'
             subs = [e[1] for e in obs['events'] if e[0] == 'submit']
             eff = dict(c, behs=list(c['behs']))
@@ -343,7 +350,7 @@ def run(prop, report, tier, seed, replay=None):
     if xterms:
         import exec_h as X
         try:
-            xbad = coq_failing(f'corr_{prop}_exec', X.EXEC_IMPORTS, xterms, 'check_xcase start_policy_src')
+            xbad = coq_failing(f'corr_{prop}_exec', X.EXEC_IMPORTS, xterms, 'check_xcase start_policy_src wait_policy_src')
         except CoqError as e:
             xbad = []
             report.broke(f'correspondence Exec.check_xcase could not be evaluated for {prop}', str(e))
